@@ -33,8 +33,9 @@ class TriangularLinearOperator(LinearOperator, _TriangularLinearOperatorBase):
     """
 
     def __init__(self, tensor: Allsor, upper: bool = False) -> None:
-        if isinstance(tensor, TriangularLinearOperator):
+        if isinstance(tensor, TriangularLinearOperator) and hasattr(tensor, "_tensor"):
             # this is a null-op, we can just use underlying tensor directly.
+            # (the diagonal operators subclass TriangularLinearOperator without wrapping a tensor: they are wrapped as they are)
             tensor = tensor._tensor
             # TODO: Use a metaclass to create a DiagLinearOperator if tensor is diagonal
         elif isinstance(tensor, BatchRepeatLinearOperator):
